@@ -19,6 +19,7 @@ EXPLANATION = (
     "type's name; integer forms pair from_be_bytes with to_be_bytes; From<u32> uses ARGB for Rgb and RGBA for Rgba in both directions. "
     "NAMED: every line of codegen/res/svg_colors.txt has a constant with its bytes and a map entry name -> that constant, keys lower case "
     "and unique, and nothing else."
+    " PACK-FWD: the packing API around ComponentOrder as terms over uninterpreted O::pack / O::unpack, documented default orders of the bare-integer forms. ALIAS: Packed* aliases name their order."
 )
 
 DIGITS = {  # (channels, component type) -> {digit count: bits per component}
